@@ -35,6 +35,13 @@ func main() {
 			os.Exit(usage())
 		}
 		os.Exit(sim.ReplayMain(a[1], a[2], false))
+	case "show":
+		// print the scenario of one run (pure function of VERIF_SEED, property, run index)
+		if len(a) != 4 {
+			os.Exit(usage())
+		}
+		n, _ := strconv.ParseUint(a[3], 10, 64)
+		os.Exit(sim.ShowMain(a[1], a[2], n))
 	case "eventlog":
 		// determinism self-test support: print one line per run for runs [0,n)
 		if len(a) != 4 {
